@@ -15,6 +15,8 @@ From Interval Require Import Specific_bigint Specific_ops Float_full Interval Xr
 From GV Require Import Lib.Tree Model.Dist Proofs.DistP.
 Import ListNotations.
 Local Open Scope R_scope.
+(* one line per axiom in the Print Assumptions output (the harness parses `name : type` lines) *)
+Set Printing Width 100000.
 
 (* Each theorem below is a conjunction of the statements of one group (one Print Assumptions per group:
    the closure walk over Coquelicot / Interval costs 1-3 s per call). *)
@@ -75,6 +77,28 @@ Proof.
   exact (conj power_law_pointwise (conj power_law_pointwise_abs (conj cutoff_pointwise cutoff_pointwise_abs))).
 Qed.
 Print Assumptions C19_truncated_laws_pointwise.
+
+(* the cut-off law with the factor z^K kept: when kappa is small the loop stops after a few terms and
+   K^(1-s) alone is not small, z^K K^(1-s) is *)
+Theorem C19_cutoff_tails_sharp :
+  (forall s kappa K, 2 <= s -> 0 < kappa -> (1 <= K)%nat ->
+     let z := cutoff_z kappa in
+     0 <= polylog s z / psum (co_term s z) K - 1 <= z ^ K * Rpower (INR K) (1 - s)) /\
+  (forall s kappa K k, 2 <= s -> 0 < kappa -> (1 <= K)%nat ->
+     0 <= cutoff_R s kappa K k - cutoff_exact s kappa k
+       <= cutoff_z kappa ^ K * Rpower (INR K) (1 - s) * cutoff_exact s kappa k).
+Proof. exact (conj cutoff_sum_sharp cutoff_pointwise_sharp). Qed.
+Print Assumptions C19_cutoff_tails_sharp.
+
+(* the series-truncation tolerance in closed form: at EVERY index at which the loop may stop (near_break,
+   tolerance 1e-06) and for every s >= 2 the relative tail is below 1001 * tol_hi < 1.002e-3 *)
+Theorem C19_truncation_tolerance_closed_form :
+  (forall s K, 2 <= s -> near_break (pl_term s) K -> Rpower (INR K) (1 - s) < 1001 * tol_hi) /\
+  (forall s z K, 2 <= s -> 0 < z <= 1 -> near_break (co_term s z) K ->
+     z ^ K * Rpower (INR K) (1 - s) < 1001 * tol_hi) /\
+  1001 * tol_hi < 1002 / 1000000.
+Proof. exact (conj trunc_tolerance_power_law (conj trunc_tolerance_cutoff trunc_tolerance_numeric)). Qed.
+Print Assumptions C19_truncation_tolerance_closed_form.
 
 (* ------------------------------------------------------------------ the truncation loops terminate *)
 (* is_break t K: K >= 1, |t K| < tol and tol <= |t j| for 1 <= j < K, i.e. K is where
@@ -145,6 +169,18 @@ Theorem C19_accepted_values_vs_named_laws :
          <= (Rpower (INR K) (1 - s) + relR * (1 + Rpower (INR K) (1 - s))) * cutoff_exact s kappa k + absR).
 Proof. exact (conj spec_power_law_exact spec_cutoff_exact). Qed.
 Print Assumptions C19_accepted_values_vs_named_laws.
+
+(* the same with the tolerance in closed form (TRUNC_TOL = 1002 / 1000000, relR = 2^-36, absR = 2^-1000):
+   every value the checker accepts is non-negative and within 1.002e-3 (relative) of the named law *)
+Theorem C19_accepted_values_closed_tolerance :
+  (forall s k x, 2 <= s -> Spec_power_law s k x ->
+     0 <= x /\
+     Rabs (x - power_law_exact s k) <= (TRUNC_TOL + relR * (1 + TRUNC_TOL)) * power_law_exact s k + absR) /\
+  (forall s kappa k x, 2 <= s -> 0 < kappa -> Spec_cutoff s kappa k x ->
+     0 <= x /\
+     Rabs (x - cutoff_exact s kappa k) <= (TRUNC_TOL + relR * (1 + TRUNC_TOL)) * cutoff_exact s kappa k + absR).
+Proof. exact (conj spec_power_law_exact_closed spec_cutoff_exact_closed). Qed.
+Print Assumptions C19_accepted_values_closed_tolerance.
 
 (* ------------------------------------------------------------------ the model meets the specification *)
 (* for all valid parameters and all degrees: the loop stops and the model's value satisfies the
